@@ -46,6 +46,76 @@ def _run_cfg(args):
     return out
 
 
+def _child(conn, job):
+    try:
+        out = _run_cfg(job)
+    except BaseException as e:      # pragma: no cover
+        out = {"cfg": repr(job[1]), "error": "worker crashed: %r" % (e,), "stats": None, "candidates": [],
+               "unknown": [], "inconclusive": [], "samples": [], "exhausted": False, "wall_s": 0, "cfg_obj": job[1]}
+    try:
+        conn.send(out)
+    finally:
+        conn.close()
+
+
+def run_pool(jobs, nproc, hard_timeout, verbose=False):
+    """one forked process per configuration, at most nproc at a time; a configuration
+    that overruns its hard wall-clock limit (a solver call that ignores its timeout) is
+    killed and reported as inconclusive -- never as success and never as an alarm"""
+    ctx = mp.get_context("fork")
+    pending = list(jobs)[::-1]
+    running = []        # (proc, conn, job, t0)
+    results = []
+    from vf.symx import Stats
+    while pending or running:
+        while pending and len(running) < nproc:
+            job = pending.pop()
+            pc, cc = ctx.Pipe(duplex=False)
+            p = ctx.Process(target=_child, args=(cc, job))
+            p.daemon = True
+            p.start()
+            cc.close()
+            running.append((p, pc, job, time.time()))
+        still = []
+        progressed = False
+        for p, conn, job, t0 in running:
+            out = None
+            if conn.poll(0):
+                try:
+                    out = conn.recv()
+                except EOFError:
+                    out = None
+                p.join(5)
+                if out is None:
+                    out = {"cfg": repr(job[1]), "error": "worker died without a result", "stats": None, "candidates": [],
+                           "unknown": [], "inconclusive": [], "samples": [], "exhausted": False, "wall_s": time.time() - t0,
+                           "cfg_obj": job[1]}
+            elif not p.is_alive():
+                p.join(1)
+                out = {"cfg": repr(job[1]), "error": "worker died (exit %s)" % p.exitcode, "stats": None, "candidates": [],
+                       "unknown": [], "inconclusive": [], "samples": [], "exhausted": False, "wall_s": time.time() - t0,
+                       "cfg_obj": job[1]}
+            elif time.time() - t0 > hard_timeout:
+                p.kill()
+                p.join(5)
+                out = {"cfg": repr(job[1]), "error": None, "stats": Stats().as_dict(), "candidates": [], "unknown": [],
+                       "inconclusive": ["killed after %.0f s (hard limit; a solver call did not honour its timeout)" % (time.time() - t0)],
+                       "samples": [], "exhausted": False, "wall_s": time.time() - t0, "cfg_obj": job[1]}
+            if out is None:
+                still.append((p, conn, job, t0))
+            else:
+                progressed = True
+                conn.close()
+                results.append(out)
+                if verbose:
+                    sys.stderr.write("cfg %s: %.1fs %s cands=%d inconc=%d\n" % (
+                        out["cfg"], out["wall_s"], out["stats"], len(out["candidates"]), len(out["inconclusive"])))
+        running = still
+        if not progressed:
+            time.sleep(0.02)
+    return results
+
+
 class Scratch(object):
     """scratch copy + build of the repository's working tree for replays"""
 
@@ -170,14 +240,8 @@ def main(argv=None):
         random.Random(seed).shuffle(cfgs)
     opts = dict(getattr(mod, "TIER_OPTS", {}).get(tier, {}))
     jobs = [(modname, c, opts) for c in cfgs]
-    results = []
-    ctx = mp.get_context("fork")
-    with ctx.Pool(min(args.jobs, max(1, len(jobs)))) as pool:
-        for out in pool.imap_unordered(_run_cfg, jobs, chunksize=1):
-            results.append(out)
-            if args.verbose:
-                sys.stderr.write("cfg %s: %.1fs %s cands=%d inconc=%d\n" % (
-                    out["cfg"], out["wall_s"], out["stats"], len(out["candidates"]), len(out["inconclusive"])))
+    budget = opts.get("time_budget", getattr(mod, "EXPLORE_OPTS", {}).get("time_budget")) or 600
+    results = run_pool(jobs, min(args.jobs, max(1, len(jobs))), hard_timeout=budget * 1.5 + 60, verbose=args.verbose)
 
     errors = [r for r in results if r["error"]]
     if errors:
@@ -218,6 +282,12 @@ def main(argv=None):
             # the current source uses a NumPy feature the shim lacks: not decidable
             # here, never an alarm and not a harness failure either
             inconclusive.append("conformance pass could not run: %s" % (e,))
+        except (AttributeError, TypeError, NotImplementedError) as e:
+            # the model lacks something the current source uses (a shim gap, not a
+            # disagreement of values): inconclusive
+            tb = traceback.extract_tb(e.__traceback__)
+            inconclusive.append("conformance pass could not run: %s: %s at %s:%d" % (
+                type(e).__name__, e, tb[-1].filename.split("/")[-1], tb[-1].lineno))
         except Exception:
             traceback.print_exc()
             sys.stderr.write("HARNESS-ERROR conformance pass failed (shim/model disagrees with the real library)\n")
